@@ -151,6 +151,10 @@ SwapEv(ev, t) ==
                    sim.res = "ok" =>
                      /\ sim.ret = o.ret /\ sim.sf = o.sf /\ sim.pf = o.pf /\ sim.bf = o.bf
                      /\ sim.spread = o.spread>>,
+                \* what the ledger records as charged is the configured protocol share of what the trade bought, in every
+                \* pool type (the ledger clauses themselves only tie the ledger to the amount the swap reports)
+                <<"C07.swap.recorded-protocol-fee=floor(protocol-share*gross)",
+                   t.fee[Oth(dir)] -- st.fee[Oth(dir)] = MulFloor(g, st.fees.p)>>,
                 <<"C15.swap.bound", SpreadBound(offer, g, o.spread, ms, bp)>>,
                 <<"C15.swap.spread-not-understated",
                    (live /\ st.ptype = "cp") => SpreadNotUnderstated(st, dir, offer, g, o.spread)>>,
